@@ -3,20 +3,22 @@
 # Confirms in the scratch worktree /var/tmp/seedchk (full build tree _b): the change compiles, the whole
 # existing suite still passes with it, the demonstration fails with it and passes without it.
 dir=$(readlink -f $1); shift
-W=/var/tmp/seedchk
+W=${SEEDCHK:-/var/tmp/seedchk}
+T=/var/tmp/seedtmp.$$; mkdir -p $T
 cd $W || exit 2
 git checkout -q -- . && git apply $dir/patch.diff || { echo "RESULT patch does not apply"; exit 1; }
 LIBS="_b/src/liblinear.a _b/src/libmachine.a _b/src/libsolver.a _b/src/libfunction.a _b/src/libprogram.a _b/src/libcore.a"
-build_demo() { g++ -std=c++17 -O1 -DNDEBUG -I include -I src -I _b -I /usr/include/eigen3 $dir/demo.cpp "$@" $LIBS -lpthread -o /var/tmp/seed_demo.$1 2> /var/tmp/seed_demo_build.log; }
-if ! cmake --build _b -j 12 > /var/tmp/seedchk_mut_build.log 2>&1; then echo "RESULT does not compile"; tail -5 /var/tmp/seedchk_mut_build.log; git checkout -q -- .; exit 1; fi
-ctest --test-dir _b -j8 --timeout 900 2>&1 | grep -E "tests passed|Failed|\*\*\*" > /var/tmp/seedchk_ctest.log
-failed=$(grep -E "^\s*[0-9]+ - " /var/tmp/seedchk_ctest.log | grep -v "test_program_linear\|test_program_quadratic" | tr '\n' ';')
-echo "suite with change: $(grep 'tests passed' /var/tmp/seedchk_ctest.log) non-flaky failures: [${failed}]"
-g++ -std=c++17 -O1 -I include -I src -I _b -I /usr/include/eigen3 $dir/demo.cpp "$@" $LIBS -lpthread -o /var/tmp/seed_demo.with 2> /var/tmp/seed_demo_build.log || { echo "demo build failed (with)"; tail -5 /var/tmp/seed_demo_build.log; }
-timeout 600 /var/tmp/seed_demo.with > /var/tmp/seed_demo.with.out 2>&1; rc_with=$?
+build_demo() { g++ -std=c++17 -O1 -DNDEBUG -I include -I src -I _b -I /usr/include/eigen3 $dir/demo.cpp "$@" $LIBS -lpthread -o $T/seed_demo.$1 2> $T/seed_demo_build.log; }
+if ! cmake --build _b -j 12 > $T/mut_build.log 2>&1; then echo "RESULT does not compile"; tail -5 $T/mut_build.log; git checkout -q -- .; exit 1; fi
+ctest --test-dir _b -j8 --timeout 900 2>&1 | grep -E "tests passed|Failed|\*\*\*" > $T/ctest.log
+failed=$(grep -E "^\s*[0-9]+ - " $T/ctest.log | grep -v "test_program_linear\|test_program_quadratic" | tr '\n' ';')
+echo "suite with change: $(grep 'tests passed' $T/ctest.log) non-flaky failures: [${failed}]"
+g++ -std=c++17 -O1 -I include -I src -I _b -I /usr/include/eigen3 $dir/demo.cpp "$@" $LIBS -lpthread -o $T/seed_demo.with 2> $T/seed_demo_build.log || { echo "demo build failed (with)"; tail -5 $T/seed_demo_build.log; }
+timeout 600 $T/seed_demo.with > $T/seed_demo.with.out 2>&1; rc_with=$?
 git checkout -q -- .
-cmake --build _b -j 12 > /var/tmp/seedchk_mut_build.log 2>&1
-g++ -std=c++17 -O1 -I include -I src -I _b -I /usr/include/eigen3 $dir/demo.cpp "$@" $LIBS -lpthread -o /var/tmp/seed_demo.without 2>> /var/tmp/seed_demo_build.log || echo "demo build failed (without)"
-timeout 600 /var/tmp/seed_demo.without > /var/tmp/seed_demo.without.out 2>&1; rc_without=$?
+cmake --build _b -j 12 > $T/mut_build.log 2>&1
+g++ -std=c++17 -O1 -I include -I src -I _b -I /usr/include/eigen3 $dir/demo.cpp "$@" $LIBS -lpthread -o $T/seed_demo.without 2>> $T/seed_demo_build.log || echo "demo build failed (without)"
+timeout 600 $T/seed_demo.without > $T/seed_demo.without.out 2>&1; rc_without=$?
 echo "demo rc with change: $rc_with, without: $rc_without"
 if [ -z "$failed" ] && [ $rc_with -ne 0 ] && [ $rc_without -eq 0 ]; then echo "RESULT confirmed"; else echo "RESULT NOT confirmed"; fi
+rm -rf $T
